@@ -340,7 +340,7 @@ def oc_rank_check(case, oc, out):
     if not plain(oraw):
         return
 
-    def walk(items, rules, path):
+    def walk(items, rules, path, given=None):
         keys = []
         for row, ch in items:
             hits = []
@@ -362,7 +362,8 @@ def oc_rank_check(case, oc, out):
             if ch:
                 sub = ref_effective_children(rules, row, rev)
                 if sub is not None:
-                    walk(ch, sub, path + (row,))
+                    gch = next((c for r2, c in (given or []) if r2 == row), None)
+                    walk(ch, sub, path + (row,), gch)
         ks = [k for k in keys if k is not None]
         for a, b in zip(ks, ks[1:]):
             if (a[0], a[1]) > (b[0], b[1]):
@@ -370,7 +371,16 @@ def oc_rank_check(case, oc, out):
                                 what="order_config puts %r (reference key %r) before %r (key %r) in block %r" % (
                                     a[2], a[:2], b[2], b[:2], path)))
                 return
-    walk(oc, oraw, ())
+        # rows with equal reference keys (in particular rows no rule of their block mentions) keep the order they came in
+        if given is not None and all(k is not None for k in keys) and len({r for r, _ in given}) == len(given):
+            pos = {r: i for i, (r, _) in enumerate(given)}
+            for a, b in zip(ks, ks[1:]):
+                if a[:2] == b[:2] and a[2] in pos and b[2] in pos and pos[a[2]] > pos[b[2]]:
+                    out.append(dict(sig="order-config-equal-rank-reordered",
+                                    what="order_config swaps %r and %r in block %r although the rules ordering that block give "
+                                         "them the same rank %r" % (b[2], a[2], path, a[:2])))
+                    return
+    walk(oc, oraw, (), case.get("oc", case["new"]))
 
 
 def oracle(case, r):
